@@ -177,7 +177,14 @@ class StmtMixin:
             yield from self.ev(call, st)
             return
         exprs = list(call.args) + [k.value for k in call.keywords]
-        for vs, s2 in self.ev_many(exprs, st):
+        from .engine import Unsupported
+        try:
+            results = list(self.ev_many(exprs, st.copy()))
+        except Unsupported:
+            # the message of an exception is built with arbitrary formatting code; when that is outside the subset it is not evaluated
+            # (stated in the evidence: exceptions raised while building an error message are not modelled)
+            results = [([], st)]
+        for vs, s2 in results:
             if d is not None:
                 r = s2.new_ref('exc', d.cid)
                 yield SV(TObj(cname), r), s2
